@@ -355,10 +355,13 @@ class Scenario(object):
             self.rules[cu] = keep
         self.part.count("op:disconnect")
 
-    def op_probe(self, unicast=False):
+    def op_probe(self, unicast=False, forced=None):
+        """forced: (member, [string args]) - a broadcast signal with exactly these arguments"""
         rng = self.rng
         s = rng.choice(self.clients)
         mtype = rng.choice([4] * 8 + [1, 2, 3])
+        if forced is not None:
+            mtype = 4
         if unicast and mtype in (2, 3):
             mtype = 4   # unrequested replies are a policy matter (C06/C09), not a match-rule matter
         path = rng.choice(PATHS)
@@ -367,6 +370,9 @@ class Scenario(object):
         if mtype != 4 and rng.random() < 0.4:
             iface = None
         sig, vals, view = gen_args(rng)
+        if forced is not None:
+            member = forced[0]
+            sig, vals, view = b"s" * len(forced[1]), list(forced[1]), [("s", v) for v in forced[1]]
         dest = None
         if unicast:
             dest = rng.choice([c.unique for c in self.clients if c is not s] or [s.unique])
@@ -476,6 +482,34 @@ class Scenario(object):
                     rng.shuffle(pairs)
                     self.part.count("twin-rules-added")
                 self.op_add(c, render(rng, pairs), "twin")
+            elif r < 0.275:
+                # twins that differ only in an EMPTY-valued argument key: argJ='' is a condition like any other (the J-th
+                # argument is the empty string), not the absence of one.  Both rules are added, one of them is removed by its
+                # own text, and two signals that tell them apart are broadcast.
+                m_idx = rng.randint(1, 3)
+                j_idx = rng.randrange(m_idx)
+                v = rng.choice([x for x in STRS if x and b"'" not in x and b"\\" not in x and b"," not in x])
+                member = rng.choice(MEMBERS)
+                base = [(b"type", b"signal"), (b"member", member), (b"arg%d" % m_idx, v)]
+                with_empty = base + [(b"arg%d" % j_idx, b"")]
+                first, second = (base, with_empty) if rng.random() < 0.5 else (with_empty, base)
+                for pr in (first, second):
+                    pr = list(pr)
+                    rng.shuffle(pr)
+                    self.op_add(c, render(rng, pr), "valid")
+                self.part.count("empty-arg-twins-added")
+                if rng.random() < 0.8:
+                    victim = list(rng.choice([base, with_empty]))
+                    rng.shuffle(victim)
+                    self.op_remove(c, render(rng, victim), True)
+
+                def args_with(jval):
+                    a = [rng.choice([b"x", b"/aa", b"zz"]) for _ in range(m_idx + 1)]
+                    a[m_idx] = v
+                    a[j_idx] = jval
+                    return a
+                self.op_probe(forced=(member, args_with(b"")))
+                self.op_probe(forced=(member, args_with(b"q")))
             elif r < 0.30:
                 base = render(rng, gen_rule_pairs(rng, self.clients))
                 self.op_add(c, mutate_invalid(rng, base, self.clients), "mutated")
